@@ -94,6 +94,9 @@ class Tracer:
     """
 
     universal = None
+    # "strict caller" scope: while the outermost watched frame of the package is executing, numpy floating-point
+    # events raise and warnings are errors (the caller's process-wide settings); harness code never runs under it
+    strict = None  # None | dict of np.seterr keywords
 
     def __init__(self, keep_log: bool = False, keep_children: bool = False):
         self._watched: dict[types.CodeType, tuple] = {}
@@ -164,6 +167,7 @@ class Tracer:
         mon.free_tool_id(TOOL_ID)
         self._active = False
         self._stack.clear()
+        self._leave_strict()
 
     def __enter__(self):
         return self.start()
@@ -192,6 +196,7 @@ class Tracer:
             self._stack[-1].children.append(ev)
         self._stack.append(ev)
         self._busy = True
+        self._leave_strict()  # handlers are harness code: never under the strict caller scope
         try:
             if w is not None and w[1] is not None:
                 ev.pre = w[1](ev)
@@ -199,6 +204,33 @@ class Tracer:
                 ev.upre = u[1](ev)
         finally:
             self._busy = False
+        if Tracer.strict is not None:
+            self._enter_strict()
+
+    def _enter_strict(self):
+        import warnings
+
+        import numpy as np
+
+        self._saved_strict = (np.geterr(), warnings.filters[:])
+        np.seterr(**Tracer.strict)
+        warnings.simplefilter('error')
+
+    def _leave_strict(self):
+        saved = getattr(self, '_saved_strict', None)
+        if saved is None:
+            return
+        import warnings
+
+        import numpy as np
+
+        np.seterr(**saved[0])
+        warnings.filters[:] = saved[1]
+        try:
+            warnings._filters_mutated()
+        except AttributeError:
+            pass
+        self._saved_strict = None
 
     def _finish(self, code, result, exc):
         st = self._stack
@@ -210,6 +242,7 @@ class Tracer:
             return
         ev = st[i]
         del st[i:]
+        self._leave_strict()
         ev.result = result
         ev.exc = exc
         w = self._watched.get(code)
@@ -228,6 +261,8 @@ class Tracer:
                 self.any_return(ev)
         finally:
             self._busy = False
+        if Tracer.strict is not None and st:
+            self._enter_strict()  # back inside an outer watched frame of the package
 
     def _on_return(self, code, offset, retval):
         if self._busy or (code not in self._watched and code not in self._uni):
